@@ -93,7 +93,7 @@ def run(pid, sid, tier="quick"):
 def matrix(tier="quick"):
     from concurrent.futures import ThreadPoolExecutor
 
-    sids = sorted(d for d in os.listdir(SEEDED) if os.path.isdir(os.path.join(SEEDED, d)))
+    sids = sorted(d for d in os.listdir(SEEDED) if os.path.isdir(os.path.join(SEEDED, d)) and not d.startswith("_"))
     res = {}
     with ThreadPoolExecutor(max_workers=3) as ex:
         def pid_of(sid):
